@@ -725,7 +725,7 @@ pub fn run_twin(cfg: &Cfg, specs: &[SockSpec; 2], sent: &mut [Sent], src: &mut S
 
 // ------------------------------------------------------------------ final bookkeeping shared by the parts
 
-pub fn finish_case(w: &mut World, app: &mut DgramApp, cfg: &Cfg, ctx: &mut Ctx) -> Result<(), Fail> {
+pub fn finish_case(w: &mut World, app: &mut DgramApp, cfg: &Cfg, quiescent: bool, ctx: &mut Ctx) -> Result<(), Fail> {
     // datagrams that fit RFC 4944 must have been put on the wire
     let a_short_unicast_stuck = matches!(cfg.n[0].ll, Ll::Short(_));
     for s in app.sent.iter() {
@@ -740,7 +740,7 @@ pub fn finish_case(w: &mut World, app: &mut DgramApp, cfg: &Cfg, ctx: &mut Ctx) 
             }
             continue;
         }
-        if s.tx.is_none() && !w.tainted {
+        if s.tx.is_none() && !w.tainted && quiescent {
             let stuck_ok = (s.from == 0 && a_short_unicast_stuck || s.from == 1) && s.dst[0] != 0xff;
             if stuck_ok || matches!(cfg.n[1].ll, Ll::Short(_)) && s.dst[0] != 0xff {
                 ctx.label("unicast-unresolvable-with-short-address");
@@ -1035,6 +1035,7 @@ pub fn dgram_case(src: &mut Src, ctx: &mut Ctx) -> Result<(), Fail> {
     let mut w = World::new(&cfg, true, cfg.mtu);
     let socks = [make_socks(&mut w.s[0].node, &su.specs[0]), make_socks(&mut w.s[1].node, &su.specs[1])];
     let mut app = DgramApp { socks: socks.clone(), sent, delivered_events: 0, beyond_model: 0, idle: 0, last_frames: 0 };
+    let mut quiescent = true;
     for b in bursts {
         for k in b {
             let mut s = app.sent[k].clone();
@@ -1044,10 +1045,11 @@ pub fn dgram_case(src: &mut Src, ctx: &mut Ctx) -> Result<(), Fail> {
         let ok = w.pump(&mut app, src, faults, ctx, 400, w.now_ms + 900_000)?;
         if !ok {
             ctx.label("pump:not-quiescent");
+            quiescent = false;
         }
         w.now_ms += *src.pick(&[1i64, 1, 5, 1_000, 70_000]);
     }
-    finish_case(&mut w, &mut app, &cfg, ctx)
+    finish_case(&mut w, &mut app, &cfg, quiescent, ctx)
 }
 
 // ------------------------------------------------------------------ part: explicit permutations (replay form of the exhaustive phase)
@@ -1142,7 +1144,7 @@ pub fn perm_case(src: &mut Src, ctx: &mut Ctx) -> Result<(), Fail> {
     if n > 0 {
         w.deliver(0, plan, &mut app, ctx)?;
     }
-    w.pump(&mut app, src, Faults::NONE, ctx, 100, 100_000)?;
+    let quiescent = w.pump(&mut app, src, Faults::NONE, ctx, 100, 100_000)?;
     // within these limits the datagram must have been delivered exactly once
     if n >= 1 && n <= 4 && !w.tainted {
         let s = &app.sent[0];
@@ -1152,7 +1154,7 @@ pub fn perm_case(src: &mut Src, ctx: &mut Ctx) -> Result<(), Fail> {
             }
         }
     }
-    finish_case(&mut w, &mut app, &cfg, ctx)
+    finish_case(&mut w, &mut app, &cfg, quiescent, ctx)
 }
 
 /// Smallest payload length for which the scenario needs exactly `n` frames.
